@@ -25,6 +25,8 @@ _PKG = {
 }
 for _p in ("C01", "C02", "C04", "C10", "C11"):
     PROPS[_p] = dict(_PKG)
+PROPS["C10"] = dict(_PKG, corr_targets=["Corr/PkgCorr.vo", "Corr/ExtentCorr.vo"],
+                    corr=_PKG["corr"] + "; Corr/ExtentCorr.v: Model.Extent.extent vs the wp:extent of every body picture of every saved document whose pixel size and size configuration the harness knows (one EMU of tolerance for the floating-point derivation), configurations shared between additions included")
 
 PROPS["C08"] = {
     "n": {"quick": 900, "thorough": 30000},
